@@ -192,28 +192,24 @@ static int HTIfind_dd(filerec_t *file_rec, uint16 look_tag, uint16 look_ref, dd_
     __CPROVER_requires(pdd != NULL && *pdd == NULL)
     __CPROVER_assigns(*pdd)
     __CPROVER_ensures(__CPROVER_return_value == SUCCEED || __CPROVER_return_value == FAIL)
-    __CPROVER_ensures((__CPROVER_return_value == FAIL) == (g_nr_used[look_ref] == 0));
+    /* refs below the first free one are in use, the first free one is not */
+    __CPROVER_ensures(look_ref < H4V_NR_LIMIT ==> __CPROVER_return_value == SUCCEED)
+    __CPROVER_ensures(look_ref == g_nr_first_free ==> __CPROVER_return_value == FAIL);
 #endif
 
 /* ------------------------------------------------------------------ Hnewref (C12, C20) */
 #ifdef H4V_OB_NEWREF
 uint16 Hnewref(int32 file_id)
-    __CPROVER_requires(g_frec != NULL)
-    __CPROVER_requires(g_nr_r >= 1 && g_nr_r <= 65535)
+    __CPROVER_requires(g_frec != NULL && g_nr_first_free <= 65535)
     __CPROVER_assigns(g_frec->maxref)
     __CPROVER_ensures(FREC_BAD ==> (__CPROVER_return_value == 0 && g_frec->maxref == __CPROVER_old(g_frec->maxref)))
     /* fast path: the next number while the counter has not reached the maximum */
     __CPROVER_ensures((!FREC_BAD && __CPROVER_old(g_frec->maxref) < MAX_REF) ==>
                       (__CPROVER_return_value == __CPROVER_old(g_frec->maxref) + 1 &&
                        g_frec->maxref == __CPROVER_return_value))
-    /* after the wrap: the smallest ref no DD uses ... */
-    __CPROVER_ensures((!FREC_BAD && __CPROVER_old(g_frec->maxref) == MAX_REF && __CPROVER_return_value != 0) ==>
-                      (g_nr_used[__CPROVER_return_value] == 0 &&
-                       (g_nr_r < __CPROVER_return_value ==> g_nr_used[g_nr_r] != 0)))
-    /* ... and 0 iff every ref 1..65535 is in use */
-    __CPROVER_ensures((!FREC_BAD && __CPROVER_old(g_frec->maxref) == MAX_REF && __CPROVER_return_value == 0) ==>
-                      g_nr_used[g_nr_r] != 0)
-    __CPROVER_ensures((!FREC_BAD && __CPROVER_old(g_frec->maxref) == MAX_REF) ==> g_frec->maxref == MAX_REF);
+    /* after the wrap: the smallest ref no DD uses, and 0 iff every ref 1..65535 is in use */
+    __CPROVER_ensures((!FREC_BAD && __CPROVER_old(g_frec->maxref) == MAX_REF) ==>
+                      (__CPROVER_return_value == g_nr_first_free && g_frec->maxref == MAX_REF));
 #endif
 
 /* ------------------------------------------------------------------ HTIregister/unregister_tag_ref (C12) */
@@ -367,6 +363,11 @@ mk_block(filerec_t *f, int n)
     b->dirty  = 0;
     /* exactly n descriptors (so that any access to ddlist[n] is out of bounds), allocated with a
        constant size per case: symbolic-size arrays of structs blow the SAT instance up */
+#ifdef H4V_DDLIST_MAXALLOC /* one allocation size: fewer objects a DD pointer may point into (HTIfind_dd) */
+    if (1)
+        b->ddlist = malloc(H4V_MAXNDDS * sizeof(dd_t));
+    else
+#endif
     switch (n) {
         case 1: b->ddlist = malloc(1 * sizeof(dd_t)); break;
         case 2: b->ddlist = malloc(2 * sizeof(dd_t)); break;
@@ -549,7 +550,11 @@ h_find_dd_abs(void)
         for (int i = 0; i < H4V_MAXNDDS; i++)
             if (i < b->ndds && b->ddlist[i].tag != DFTAG_NULL && b->ddlist[i].ref == look_ref)
                 used = 1;
-    H4V_ASSUME((g_nr_used[look_ref] != 0) == (used != 0));
+    H4V_ND(int32, first_free);
+    H4V_ASSUME(first_free >= 0 && first_free <= 65535);
+    g_nr_first_free = (unsigned)first_free;
+    H4V_ASSUME(!(look_ref < H4V_NR_LIMIT) || used);
+    H4V_ASSUME(!(look_ref == g_nr_first_free) || !used);
     dd_t **pdd = malloc(sizeof(dd_t *));
     H4V_ASSUME(pdd != NULL);
     *pdd  = NULL;
@@ -566,9 +571,9 @@ h_newref(void)
 {
     mk_frec();
     H4V_ND(int32, file_id);
-    H4V_ND(int, nr_ghost);
-    H4V_ASSUME(nr_ghost >= 1 && nr_ghost <= 65535);
-    g_nr_r       = (unsigned)nr_ghost;
+    H4V_ND(int32, first_free);
+    H4V_ASSUME(first_free >= 0 && first_free <= 65535);
+    g_nr_first_free = (unsigned)first_free;
     uint16 m0    = g_frec->maxref;
     uint16 r     = Hnewref(file_id);
     H4V_COVER(r != 0 && m0 < MAX_REF, "Hnewref fast path");
